@@ -86,7 +86,8 @@ static void hx_reify(void)
 }
 
 /* ------------------------------------------------------------------ interposers */
-static int spawn_log_n; static struct { pid_t pid; int norun; int rfd; char argv[256]; } spawn_log[64];
+static int spawn_log_n; static struct { pid_t pid; int norun; int rfd; int failed; char argv[256]; } spawn_log[64];
+static int spawn_fail_in;	/* FS n: the n-th spawn from now fails (EAGAIN, as when the process table is full) */
 static int last_pipe[2] = {-1, -1};
 static pid_t next_pid = 100;
 int __real_pipe(int fds[2]);
@@ -95,6 +96,14 @@ int __wrap_posix_spawn(pid_t *pid, const char *path, const posix_spawn_file_acti
 {
 	(void)path; (void)fa; (void)at; (void)envp;
 	int k = spawn_log_n++;
+	spawn_log[k].failed = 0;
+	if (spawn_fail_in > 0 && --spawn_fail_in == 0) {
+		/* posix_spawn reports failure by a POSITIVE error number and leaves *pid alone (here: as good as uninitialised) */
+		spawn_log[k].failed = 1; spawn_log[k].pid = 0; spawn_log[k].norun = 0; spawn_log[k].rfd = -1; strcpy(spawn_log[k].argv, "(spawn failed) ");
+		for (size_t i = 0; argv[i]; i++) if (!strcmp(argv[i], "-nd") || !strcmp(argv[i], "-n") || !strcmp(argv[i], "--no-run")) spawn_log[k].norun = 1;
+		*pid = 23456789;
+		return EAGAIN;
+	}
 	spawn_log[k].pid = *pid = next_pid++;
 	spawn_log[k].norun = 0; spawn_log[k].argv[0] = 0;
 	for (size_t i = 0; argv[i]; i++) {
@@ -249,7 +258,7 @@ static void flush_spawns(const char *uid, double now)
 		if (spawn_log[k].rfd >= 0) { ssize_t r; while ((r = read(spawn_log[k].rfd, buf + n, sizeof(buf) - 1 - n)) > 0) n += r; __real_close(spawn_log[k].rfd); }
 		buf[n] = 0;
 		fprintf(o, "{\"e\":\"Spawn\",\"uid\":"); jstr(uid);
-		fprintf(o, ",\"now\":%.1f,\"pid\":%d,\"norun\":%s,\"argv\":", now - T0, spawn_log[k].pid, spawn_log[k].norun ? "true" : "false"); jstr(spawn_log[k].argv);
+		fprintf(o, ",\"now\":%.1f,\"pid\":%d,\"norun\":%s,\"failed\":%s,\"argv\":", now - T0, spawn_log[k].pid, spawn_log[k].norun ? "true" : "false", spawn_log[k].failed ? "true" : "false"); jstr(spawn_log[k].argv);
 		fputs(",\"vtodo\":", o); jstr(buf); fputs("}\n", o);
 	}
 	spawn_log_n = 0;
@@ -345,11 +354,12 @@ int main(int argc, char *argv[])
 	const char *spool = argc > 1 ? argv[1] : ".";
 	o = stdout; static char obuf[1 << 20]; setvbuf(o, obuf, _IOFBF, sizeof(obuf));
 	echs_log = nolog;
+	signal(SIGPIPE, SIG_IGN);	/* the daemon has a SIGPIPE watcher (sigpipe_cb): writing to a closed pipe or socket yields EPIPE, not death */
 	if (argc > 2 && !strcmp(argv[2], "tstamp")) {
-		/* C08: the daemon's wake-up stamp for every day of 2001..2099 x sampled seconds */
+		/* C08: the daemon's wake-up stamp for every day of 1901..2099 x sampled seconds */
 		nd_rng_s = argc > 3 ? strtoull(argv[3], 0, 10) : 1; int thorough = argc > 4 && !strcmp(argv[4], "thorough");
 		static const unsigned md[] = {0,31,28,31,30,31,30,31,31,30,31,30,31};
-		for (unsigned y = 2001; y <= 2099; y++) for (unsigned m = 1; m <= 12; m++) for (unsigned d = 1; d <= md[m] + (m == 2 && y % 4 == 0); d++) {
+		for (unsigned y = 1901; y <= 2099; y++) for (unsigned m = 1; m <= 12; m++) for (unsigned d = 1; d <= md[m] + (m == 2 && y % 4 == 0); d++) {
 			if (!thorough && !(d == 1 || d >= 28 || (y + m + d) % 7 == 0)) continue;
 			echs_instant_t v[3] = { mkinst(y, m, d, 255, 0, 0, 0), mkinst(y, m, d, nd_rnd(24), nd_rnd(60), nd_rnd(60), 1023), mkinst(y, m, d, 23, 59, 59, 999) };
 			for (int k = 0; k < 3; k++) { fputs("{\"e\":\"Tstamp\",\"a\":", o); nd_inst(o, v[k]); fputs(",\"r\":", o); nd_secs(o, (int64_t)tstamp_probe(v[k])); fputs("}\n", o); }
@@ -453,6 +463,7 @@ int main(int argc, char *argv[])
 				if (c->flags) { c->rpid = c->pid; c->rstatus = line[1] == 'S' ? 0x137f : 0xffff; c->pending = 1; pend[npend].kind = PK_CHLD; pend[npend++].w = c; }
 				fprintf(o, "{\"e\":\"ChildEvent\",\"pid\":%d,\"kind\":\"%s\",\"traced\":%s}\n", c->pid, line[1] == 'S' ? "stop" : "cont", c->flags ? "true" : "false"); }
 		}
+		else if (!strcmp(line, "FS")) { spawn_fail_in = atoi(a1) > 0 ? atoi(a1) : 1; }
 		else if (!strcmp(line, "K")) { fputs("{\"e\":\"Chkpnt\"}\n", o); if (the_timer) the_timer->cb(&the_loop, the_timer, 0); }
 		else if (!strcmp(line, "F")) { sys_fault_at = sys_k + atol(a1); sys_mode = a2 ? a2[0] : 'c'; }
 		else if (!strcmp(line, "ST")) { sys_trace = atoi(a1); }
